@@ -73,6 +73,19 @@ def gen_plan(seed, tier="quick"):
                                          cancel_sends=(driver == "tridonic"), start_on_event=0.2,
                                          cats=_cats(r, driver)),
             "traffic": [], "deadline_s": 600}
+    if driver == "tridonic" and (seed // 6) % 60 == 17:
+        # a long life of one driver object: commands without an answer first, then enough traffic for the
+        # 8-bit sequence numbers to come round to theirs again
+        lr = plans.rng_for(seed, PROP + "-long")
+        ops = [plans.gen_send_op(lr, driver, ["plain16", "twice16", "dt_plain", "plain24"], 0.15) for _ in range(lr.randrange(1, 6))]
+        ops += [plans.gen_send_op(lr, driver, ["query16", "query16", "plain16", "query24"], 0.1) for _ in range(270)]
+        for op in ops:
+            op["gap_us"] = 0
+        plan["callers"] = [{"id": "A", "start_us": 0, "ops": ops}]
+        plan["knobs"]["latency"] = "fast"
+        plan["knobs"]["stalls"] = []
+        plan["max_iterations"] = 2_000_000
+        plan["deadline_s"] = 3000
     if driver in ("luba", "sci"):
         plan["knobs"]["answer_mode"] = r.choice(["intime", "intime", "mixed"])
     if driver != "hasseb" and r.random() < 0.5:
